@@ -179,8 +179,21 @@ func sameKey(a, b ssa.Value) bool {
 	return false
 }
 
+// inc1Required: the pairings of a child with its same-name counterpart from another tree that must be
+// guarded by an incarnation comparison (function that owns the pairing, the two child maps).
+var inc1Required = []struct{ fn, mapA, mapB string }{
+	{"(*collection).buildStackDirtyTop", "childCollections", "childSegStacks"},
+	{"(*collection).appendChildStacks", "childCollections", "childSegStacks"},
+	{"(*segmentStack).merge", "childSegStacks", "childSegStacks"},
+	{"(*Store).buildNewFooter", "ChildFooters", "childSegStacks"},
+	{"(*Store).mergeSegStacks", "ChildFooters", "childSegStacks"},
+	{"(*Footer).spliceFooter", "ChildFooters", "ChildFooters"},
+}
+
 func ruleInc1(c *Ctx) []*Ob {
 	o := newObs(c, "INC-1")
+	type seenCmp struct{ fn, a, b string }
+	var cmps []seenCmp
 	for _, f := range c.Funcs {
 		fn := c.fname(f)
 		eachInstr(f, func(i ssa.Instruction) {
@@ -247,9 +260,37 @@ func ruleInc1(c *Ctx) []*Ob {
 			}
 			o.add(fn, construct, c.instrPos(i), true,
 				fmt.Sprintf("both operands are elements of %s / %s under the same key %s", pl[0].m.Name(), pr[0].m.Name(), accessPath(pl[0].key)))
+			owner := fn
+			if ow := onlyCalledFrom(c, f, inc1Owners(), 3); ow != "" {
+				owner = ow
+			}
+			cmps = append(cmps, seenCmp{owner, pl[0].m.Name(), pr[0].m.Name()})
 		})
 	}
+	// every required pairing is guarded by such a comparison (in the function or in a helper only it calls)
+	for _, rq := range inc1Required {
+		f := c.Fn(rq.fn)
+		found := false
+		for _, cm := range cmps {
+			if cm.fn == rq.fn && ((cm.a == rq.mapA && cm.b == rq.mapB) || (cm.a == rq.mapB && cm.b == rq.mapA)) {
+				found = true
+			}
+		}
+		why := "the counterpart is used only after its incarnation was compared with the child's"
+		if !found {
+			why = fmt.Sprintf("%s pairs children of %s with their counterparts in %s without comparing incarnation numbers: after a delete + re-create of a child under the same name the previous incarnation's data is merged back in", rq.fn, rq.mapB, rq.mapA)
+		}
+		o.add(rq.fn, "incarnation comparison guards the "+rq.mapA+"/"+rq.mapB+" pairing", c.pos(f.Pos()), found, why)
+	}
 	return o.list
+}
+
+func inc1Owners() map[string]string {
+	m := map[string]string{}
+	for _, rq := range inc1Required {
+		m[rq.fn] = ""
+	}
+	return m
 }
 
 // ---------------------------------------------------------------- INC-2
